@@ -135,6 +135,14 @@ class SimBackend(BaseBleakClient):
 
     async def disconnect(self) -> None:
         link = self._link
+        if getattr(link, "dead_disconnect", False) and self._connected:
+            # the backend died (BlueZ: the D-Bus socket is gone): the link is down, disconnect() raises, and the disconnected
+            # callback is never delivered
+            self._connected = False
+            link.acc.on_disconnect()
+            link.ctx.probe("ble_disconnect_raised_dead_backend")
+            link.ctx.event("ble_client_disconnect_dead_backend")
+            raise EOFError("D-Bus connection lost (simulated)")
         if self._connected:
             self._connected = False
             link.client_disconnects += 1
